@@ -64,6 +64,12 @@ def _run(ctx):
             # a constant-level invariant: TLC evaluates it before the first state ("is equal to FALSE")
             if "Invariant C34_LatestRunCounts is violated" not in txt and "invariant of C34_LatestRunCounts is equal to FALSE" not in txt:
                 raise lib.ToolError("the seeded fault keep_unchanged_snapshot of RunLoop.tla is not rejected by TLC")
+        b4 = lib.tlc(ctx, "mc_runloop_bad_past_start", "MC_RunLoop.tla", "MC_RunLoop_bad_past_start.cfg", workers=2, timeout=600,
+                     expect_ok=False, count=False)
+        with open(b4["out"], errors="replace") as f:
+            txt = f.read()
+            if "Invariant C34_Table is violated" not in txt and "invariant of C34_Table is equal to FALSE" not in txt:
+                raise lib.ToolError("the seeded fault past_start_waits_refresh of RunLoop.tla is not rejected by TLC")
     bad = lib.tlc(ctx, "mc_runloop_as_shipped", "MC_RunLoop.tla", "MC_RunLoop_as_shipped.cfg", workers=2, timeout=600,
                   expect_ok=False, count=False)
     with open(bad["out"], errors="replace") as f:
